@@ -1,0 +1,27 @@
+// Package reclaim orders readers that go from a list of versions to the content
+// records of those versions against the physical removal of contents.
+//
+// A version is first unlinked from the version lists and only then handed to the
+// cleaner, so a reader that holds Read from before it lists versions until it has
+// looked at their content records can never find the content of a version it
+// listed already removed: a missing content record then always means a deleted key.
+package reclaim
+
+import "sync"
+
+var m sync.RWMutex
+
+// Read is held while versions are listed and their content records are looked up.
+func Read() (done func()) {
+	m.RLock()
+
+	return m.RUnlock
+}
+
+// Remove is held while a content that is no longer linked in any version list
+// is removed.
+func Remove() (done func()) {
+	m.Lock()
+
+	return m.Unlock
+}
